@@ -96,6 +96,14 @@ C03b(e) == e.abandoned => (C02b(e) /\ C02c(e) /\ C09b(e) /\ C04b(e))
 C07d(e) == e.resized => (C02b(e) /\ C02c(e))
 C09c(e) == e.usedrt => (C02c(e) /\ C11a(e))
 
+\* --- C10 --------------------------------------------------------------------
+\* a zero wait timeout never waits
+C10b(e) == e.mode = "nb" => ~e.pendwait
+\* NoRuntimeSpecified: nothing was created, destroyed or detached by that call
+C10c(e) == (GetDone(e) /\ e.result = "no_runtime" /\ e.solo) => (e.live = e.b_live /\ e.creating = 0 /\ C03a(e))
+\* after timeouts the slot is free again and the rejected objects are gone
+C10d(e) == e.timedout => (C02b(e) /\ C02c(e) /\ C04b(e))
+
 C13a(e) == (GetDone(e) /\ e.result = "ok") => (e.rrc = e.rho - 1 /\ (e.rrec <=> e.rho > 1))
 C13b(e) == e.callobj > 0 =>
               IF e.callho = 0 THEN e.callrc = 0 ELSE e.callrc = e.callho - 1
@@ -110,7 +118,7 @@ C07b(a, b) == (b.live + b.creating > a.live + a.creating) => b.live + b.creating
 
 StateViol(e) ==
   {n \in {"C01", "C02a", "C02b", "C02c", "C03a", "C04a", "C04b", "C04c", "C06a", "C06b", "C07a", "C07c",
-          "C08a", "C08b", "C08c", "C09a", "C09b", "C11a", "C11b", "C13a", "C13b", "C13c", "C03b", "C07d", "C09c"} :
+          "C08a", "C08b", "C08c", "C09a", "C09b", "C11a", "C11b", "C13a", "C13b", "C13c", "C03b", "C07d", "C09c", "C10b", "C10c", "C10d"} :
      ~ CASE n = "C01" -> C01(e) [] n = "C02a" -> C02a(e) [] n = "C02b" -> C02b(e) [] n = "C02c" -> C02c(e)
          [] n = "C03a" -> C03a(e) [] n = "C04a" -> C04a(e) [] n = "C04b" -> C04b(e) [] n = "C04c" -> C04c(e)
          [] n = "C06a" -> C06a(e) [] n = "C06b" -> C06b(e) [] n = "C07a" -> C07a(e) [] n = "C07c" -> C07c(e)
@@ -118,7 +126,8 @@ StateViol(e) ==
          [] n = "C09a" -> C09a(e) [] n = "C09b" -> C09b(e)
          [] n = "C11a" -> C11a(e) [] n = "C11b" -> C11b(e)
          [] n = "C13a" -> C13a(e) [] n = "C13b" -> C13b(e) [] n = "C13c" -> C13c(e)
-         [] n = "C03b" -> C03b(e) [] n = "C07d" -> C07d(e) [] n = "C09c" -> C09c(e)}
+         [] n = "C03b" -> C03b(e) [] n = "C07d" -> C07d(e) [] n = "C09c" -> C09c(e)
+         [] n = "C10b" -> C10b(e) [] n = "C10c" -> C10c(e) [] n = "C10d" -> C10d(e)}
 
 ActViol(a, b) ==
   IF SameRun(a, b)
